@@ -48,7 +48,7 @@ def arbeitsl_geld_restl_anspruchsd(
     anwartschaftszeit: bool,
     m_durchg_alg1_bezug: float,
     arbeitsl_geld_params: dict,
-) -> int:
+) -> float:
     """Calculate the remaining amount of months a person can receive unemployment
     benefit this year.
 
@@ -122,7 +122,7 @@ def arbeitsl_geld_restl_anspruchsd(
 def arbeitsl_geld_berechtigt(  # noqa: PLR0913
     alter: int,
     arbeitssuchend: bool,
-    arbeitsl_geld_restl_anspruchsd: int,
+    arbeitsl_geld_restl_anspruchsd: float,
     arbeitsstunden_w: float,
     arbeitsl_geld_params: dict,
     ges_rente_regelaltersgrenze: float,
